@@ -14,7 +14,7 @@ import (
 )
 
 var c03Forced = []string{"group.1col", "group.2col", "group.3col", "group.nullkey", "group.mixedkey", "having", "having.key", "where", "star", "agg.COUNT*", "agg.COUNT", "agg.SUM", "agg.MIN", "agg.MAX", "agg.AVG",
-	"agg.samefn-diffcol", "agg.samefn-samecol", "agg.nullable", "whole.where", "whole.nowhere", "whole.empty", "whole.union", "whole.limit", "table.empty", "from.alias", "reexec.vars", "agg.groupcol", "naming.alias-unqualified", "naming.table-qualified", "agg.like-named", "star.only", "naming.mixed-spelling", "column.nonword"}
+	"agg.samefn-diffcol", "agg.samefn-samecol", "agg.nullable", "whole.where", "whole.nowhere", "whole.empty", "whole.union", "whole.limit", "table.empty", "from.alias", "reexec.vars", "agg.groupcol", "naming.alias-unqualified", "naming.table-qualified", "agg.like-named", "star.only", "naming.mixed-spelling", "column.nonword", "column.table-prefixed", "agg.huge"}
 
 func init() {
 	fw.Register(&fw.Prop{
@@ -65,6 +65,10 @@ func c03Table(c *fw.Case, forceEmpty bool) *gen.Table {
 	for i := range vpool {
 		vpool[i] = dyadic(c)
 	}
+	huge := c.Chance(0.12)
+	if huge && n > 0 {
+		c.Feature("agg.huge")
+	}
 	for i := 0; i < n; i++ {
 		row := map[string]any{"rid": float64(i)}
 		row["g1"] = gen.Pick(c.R, gs)
@@ -84,6 +88,10 @@ func c03Table(c *fw.Case, forceEmpty bool) *gen.Table {
 			row["g5"] = gen.Pick(c.R, []any{1.0, "1", true, "true", nil, "<nil>", "a", 1.5, "1.5"})
 		}
 		row["v1"] = gen.Pick(c.R, vpool)
+		if huge {
+			// whole numbers around and beyond 2^63 (nanosecond timestamps, 64-bit ids): every sum stays exact
+			row["v1"] = float64(1+c.Intn(7)) * (1 << 60)
+		}
 		row["v2"] = dyadic(c)
 		switch c.Intn(3) { // nullable numeric column
 		case 0:
@@ -525,6 +533,15 @@ func c03Group(c *fw.Case) {
 		}
 		feats = append(feats, "column.nonword")
 	}
+	// columns whose names begin with the table's name and go on with the name of another column
+	if nonword == nil && fromText == "t1" && (force == "column.table-prefixed" || (force == "" && c.Chance(0.1))) {
+		nonword = map[string]string{"g4": "t1_g1", "w1": "t1_v1"}
+		sql = c03PrefixedRe.ReplaceAllStringFunc(sql, func(m string) string { return nonword[strings.Trim(m, "`")] })
+		for i := range want {
+			want[i] = renameKeys(val.Copy(want[i]), nonword)
+		}
+		feats = append(feats, "column.table-prefixed")
+	}
 	c.Feature(feats...)
 	c.Sample(map[string]any{"sql": sql, "rows_in": len(t.Rows), "filtered": len(filtered), "expected": want})
 	R := pick(c.Tier, 3, 8)
@@ -587,6 +604,7 @@ func c03Group(c *fw.Case) {
 	}
 }
 
+var c03PrefixedRe = regexp.MustCompile("`?\\b(g4|w1)\\b`?")
 var c03NonwordRe = regexp.MustCompile("`?\\b(g1|g2|v1|w1)\\b`?")
 
 func containsStr(xs []string, s string) bool {
